@@ -347,8 +347,9 @@ class PDDLWriter:
         self.pddl_keywords = GENERAL_PDDL_KEYWORDS
         if len(self.problem.processes) > 0 or len(self.problem.events) > 0:
             self.pddl_keywords |= PDDL_PLUS_KEYWORDS
-        if len(self.problem.trajectory_constraints) > 0:
-            self.pddl_keywords |= PDDL3_KEYWORDS
+        # always reserved: the PDDL reader parses these words as trajectory-constraint
+        # operators in every expression, also when the problem has no constraints
+        self.pddl_keywords |= PDDL3_KEYWORDS
         if any(
             map(
                 lambda action: isinstance(action, up.model.action.DurativeAction),
